@@ -358,6 +358,7 @@ func (c *Client) Mail(from string) error {
 		return err
 	}
 	cmdStr := "MAIL FROM:<%s>"
+	cmdArgs := []interface{}{from}
 
 	c.mutex.RLock()
 	if c.ext != nil {
@@ -369,12 +370,17 @@ func (c *Client) Mail(from string) error {
 		}
 		_, ok := c.ext["DSN"]
 		if ok && c.dsnmrtype != "" {
-			cmdStr += fmt.Sprintf(" RET=%s", c.dsnmrtype)
+			if err := validateParamValue(c.dsnmrtype); err != nil {
+				c.mutex.RUnlock()
+				return err
+			}
+			cmdStr += " RET=%s"
+			cmdArgs = append(cmdArgs, c.dsnmrtype)
 		}
 	}
 	c.mutex.RUnlock()
 
-	_, _, err := c.cmd(250, cmdStr, from)
+	_, _, err := c.cmd(250, cmdStr, cmdArgs...)
 	return err
 }
 
@@ -391,6 +397,9 @@ func (c *Client) Rcpt(to string) error {
 	c.mutex.RUnlock()
 
 	if ok && c.dsnrntype != "" {
+		if err := validateParamValue(c.dsnrntype); err != nil {
+			return err
+		}
 		_, _, err := c.cmd(25, "RCPT TO:<%s> NOTIFY=%s", to, c.dsnrntype)
 		return err
 	}
@@ -667,6 +676,18 @@ func (c *Client) debugLog(d log.Direction, f string, a ...interface{}) {
 	if c.debug {
 		c.logger.Debugf(log.Log{Direction: d, Format: f, Messages: a})
 	}
+}
+
+// validateParamValue checks that a string can be the value of an ESMTP parameter (esmtp-value, RFC 5321,
+// section 4.1.2): printable US-ASCII without blank and "=". A blank, CR or LF would add a parameter, an
+// argument or a whole line to the command.
+func validateParamValue(value string) error {
+	for i := 0; i < len(value); i++ {
+		if value[i] <= ' ' || value[i] == '=' || value[i] >= 0x7f {
+			return errors.New("smtp: the value of an ESMTP parameter must not contain blanks, control characters or \"=\"")
+		}
+	}
+	return nil
 }
 
 // validateLine checks to see if a line has CR or LF as per RFC 5321.
